@@ -235,7 +235,10 @@ def run(c):
     # 2. overflow histories of the implementation-shaped model, replayed on the real class
     impl_cfgs = [(8, 0, range(0, 11), range(0, 11), 4 if c.quick else 6)]
     for m in ((24, 65) if c.quick else (24, 40, 65, 247)):
-        impl_cfgs.append((m, 1 if m != 40 else 0, (0, 1, 3, 4, 5, 12, 23, 27), (0, 1, 8, 23, m - 1, m, m + 1), 4 if m < 100 else 12))
+        if m < 100:
+            impl_cfgs.append((m, 1 if m != 40 else 0, (0, 1, 3, 4, 5, 12, 23, 27), (0, 1, 8, 23, m - 1, m, m + 1), 4))
+        else:       # many fragments are needed to fill a large buffer: longer histories over a smaller alphabet
+            impl_cfgs.append((m, 1, (0, 4, 27), (0, 23, m - 1, m, m + 1), 10))
 
     def gen_impl(cfg):
         m, oh, ns, ls, maxrx = cfg
